@@ -354,3 +354,36 @@ Proof.
   split; [vm_compute; discriminate|]. split; [vm_compute; discriminate|]. split; [vm_compute; discriminate|].
   split; [vm_compute; reflexivity|]. split; vm_compute; reflexivity.
 Qed.
+
+(** *** the same through the SPEC lexer of ShExC ([Spec/ShexcGrammar.v], written for C05 from
+    the ShEx 2.1 grammar; it skips blanks and comments).  On C05's domain -- a condition on the
+    namespaces and the shapes the serialiser receives, not on the text -- both runs succeed and
+    their texts are the SAME token stream: [disable_comments] and [instances_report_mode]
+    change comments only, never the schema the document denotes. *)
+From Shexer Require Model.C05Dom Spec.ShexcGrammar.
+
+Theorem C13_text_lex_disable_comments : forall fa c (thr : F fa) g ns shapes,
+  run_shapes fa (rwith_disable_comments false c) thr g = inl (ns, shapes) ->
+  C05Dom.C05_dom (sercfg_of (rwith_disable_comments false c) ns) shapes = true ->
+  exists t t', run_shexc fa (rwith_disable_comments false c) thr g = inl t /\
+               run_shexc fa (rwith_disable_comments true c) thr g = inl t' /\
+               ShexcGrammar.lex t = ShexcGrammar.lex t' /\ ShexcGrammar.lex t <> None.
+Proof. exact run_shexc_lex_disable_comments. Qed.
+Print Assumptions C13_text_lex_disable_comments.
+
+Theorem C13_text_lex_report_mode : forall fa m c (thr : F fa) g ns shapes,
+  run_shapes fa c thr g = inl (ns, shapes) -> C05Dom.C05_dom (sercfg_of c ns) shapes = true ->
+  exists t1 t2, run_shexc fa (with_mode m c) thr g = inl t1 /\ run_shexc fa c thr g = inl t2 /\
+                ShexcGrammar.lex t1 = ShexcGrammar.lex t2 /\ ShexcGrammar.lex t1 <> None.
+Proof. exact run_shexc_lex_report_mode. Qed.
+Print Assumptions C13_text_lex_report_mode.
+
+Example C13_text_lex_inhabited :
+  exists ns shapes, run_shapes BAlg base_rcfg thr0 g_opts = inl (ns, shapes) /\
+                    C05Dom.C05_dom (sercfg_of base_rcfg ns) shapes = true /\
+                    ShexcGrammar.lex (text_of base_rcfg) = ShexcGrammar.lex (text_of (rwith_disable_comments true base_rcfg)) /\
+                    ShexcGrammar.lex (text_of base_rcfg) <> None.
+Proof.
+  eexists _, _. split; [vm_compute; reflexivity|]. split; [vm_compute; reflexivity|].
+  split; [vm_compute; reflexivity | vm_compute; discriminate].
+Qed.
